@@ -236,17 +236,17 @@ def run(ctx):
                     if consumer is None:
                         continue
                     n_checked += 1
-                    why = []
+                    why = {}  # tainted attribute -> how the consumption depends on it
                     for test, label in fa.guards(node.id):
                         if isinstance(test, ast.expr):
-                            t = mentions_taint(test, tainted)
-                            if t:
-                                why.append(f"control-dependent on `{src(test)[:60]}` ({t})")
-                    t = short_circuit_taint(part, e, tainted)
-                    if t:
-                        why.append(t)
-                    if why:
-                        ctx.ob("R-RNG", "C14.4", f, f"randomness consumed by `{src(e)[:50]}` does not depend on the parallelisation settings", False, f"{consumer}: " + "; ".join(why), node=e)
+                            for t in all_taints(test, tainted):
+                                why.setdefault(t, f"control-dependent on `{src(test)[:60]}`")
+                    for t, how in short_circuit_taints(part, e, tainted):
+                        why.setdefault(t, how)
+                    # one obligation per (consuming site, setting it depends on): a known dependence on one
+                    # setting never hides a new dependence on another
+                    for t, how in sorted(why.items()):
+                        ctx.ob("R-RNG", "C14.4", f, f"randomness consumed by `{src(e)[:50]}` does not depend on the parallelisation setting `{t}`", False, f"{consumer}: {how}", node=e)
     ctx.ob("R-RNG", "C14.4", "nessai", "taint / control-dependence analysis ran over every RNG-consuming call and property read", True, f"{n_checked} consuming sites checked against tainted attributes {sorted(tainted)}")
     ctx.require(n_checked >= 60, f"only {n_checked} RNG-consuming sites found")
     ctx.assumptions += ["the user's likelihood and prior are deterministic and consume no randomness (premise of the property)", "torch/glasflow distribution sampling draws from torch's global generator", "bit identity itself, fork/pool behaviour and BLAS/torch thread non-determinism are not decided"]
@@ -274,22 +274,25 @@ def mentions_taint(test, tainted):
     return None
 
 
-def short_circuit_taint(root, target, tainted):
-    """target sits to the right of a tainted operand of and/or (or inside a tainted IfExp branch)."""
+def all_taints(test, tainted):
+    return sorted({n.attr for n in ast.walk(test) if isinstance(n, ast.Attribute) and n.attr in tainted})
+
+
+def short_circuit_taints(root, target, tainted):
+    """[(tainted attribute, how)]: target sits to the right of a tainted operand of and/or, or inside a branch of a tainted IfExp."""
+    out = []
     for n in ast.walk(root):
         if isinstance(n, ast.BoolOp):
             for i, v in enumerate(n.values):
                 if any(x is target for x in ast.walk(v)):
                     for left in n.values[:i]:
-                        t = mentions_taint(left, tainted)
-                        if t:
-                            return f"evaluated only if `{src(left)[:50]}` ({t}) lets the short-circuit continue"
+                        for t in all_taints(left, tainted):
+                            out.append((t, f"evaluated only if `{src(left)[:50]}` lets the short-circuit continue"))
         if isinstance(n, ast.IfExp):
             if any(x is target for x in ast.walk(n.body)) or any(x is target for x in ast.walk(n.orelse)):
-                t = mentions_taint(n.test, tainted)
-                if t:
-                    return f"selected by `{src(n.test)[:50]}` ({t})"
-    return None
+                for t in all_taints(n.test, tainted):
+                    out.append((t, f"selected by `{src(n.test)[:50]}`"))
+    return out
 
 
 def taint_attrs(prog):
@@ -325,6 +328,7 @@ CLAIM = {
 _M = "nessai/model.py"
 _B = "nessai/samplers/base.py"
 MUTANTS = [
+    {"id": "probe-skipped-for-chunksize-one", "file": _M, "old": "            self.allow_vectorised and self.vectorised_likelihood,\n            chunksize=self.likelihood_chunksize,", "new": "            self.allow_vectorised and self.likelihood_chunksize != 1 and self.vectorised_likelihood,\n            chunksize=self.likelihood_chunksize,", "expect": "parallelisation setting `likelihood_chunksize`"},
     {"id": "private-generator", "file": "nessai/utils/sampling.py", "old": "import numpy as np\n", "new": "import numpy as np\n_RNG = np.random.default_rng()\n", "expect": "at import time"},
     {"id": "default-rng-in-function", "file": _M, "old": "        logP = -np.inf\n        while logP == -np.inf:\n            p = parameters_to_live_point(\n                np.random.uniform(", "new": "        logP = -np.inf\n        while logP == -np.inf:\n            p = parameters_to_live_point(\n                np.random.default_rng().uniform(", "expect": "global generators"},
     {"id": "stdlib-random", "file": "nessai/posterior.py", "old": "import logging\n", "new": "import logging\nimport random\n", "expect": "stdlib randomness"},
@@ -333,6 +337,6 @@ MUTANTS = [
     {"id": "reseed-elsewhere", "file": "nessai/proposal/flowproposal.py", "old": "        self.prep_latent_prior()\n\n        log_n = np.log(N)", "new": "        self.prep_latent_prior()\n        np.random.seed(self.training_count)\n\n        log_n = np.log(N)", "expect": "called only from configure_random_seed"},
     {"id": "seed-not-forwarded", "file": "nessai/samplers/importancesampler.py", "old": "            output=output,\n            seed=seed,\n            checkpointing=checkpointing,", "new": "            output=output,\n            checkpointing=checkpointing,", "expect": "forwards the user's seed"},
     {"id": "proposal-before-seeding", "file": "nessai/samplers/importancesampler.py", "edits": [("nessai/samplers/importancesampler.py", "        self.proposal = self.get_proposal(**kwargs)\n        self.configure_iterations(min_iteration, max_iteration)", "        self.configure_iterations(min_iteration, max_iteration)"), ("nessai/samplers/importancesampler.py", "        self.add_fields()\n\n        super().__init__(", "        self.add_fields()\n        self.proposal = self.get_proposal(**kwargs)\n        self.proposal.model.new_point(2)\n\n        super().__init__(")], "expect": "runs after the generators were seeded"},
-    {"id": "probe-depends-on-pool", "file": _M, "old": "        if self._vectorised_prior is None:\n            if self.allow_vectorised_prior:", "new": "        if self._vectorised_prior is None:\n            if self.allow_vectorised_prior and self.pool is None:", "expect": "does not depend on the parallelisation settings"},
-    {"id": "extra-draw-with-chunks", "file": _M, "old": "        st = datetime.datetime.now()\n        if unit_hypercube:\n            x = self.from_unit_hypercube(x)\n        log_likelihood = batch_evaluate_function(", "new": "        st = datetime.datetime.now()\n        if unit_hypercube:\n            x = self.from_unit_hypercube(x)\n        if self.likelihood_chunksize:\n            x = x[np.random.permutation(x.size)]\n        log_likelihood = batch_evaluate_function(", "expect": "does not depend on the parallelisation settings"},
+    {"id": "probe-depends-on-pool", "file": _M, "old": "        if self._vectorised_prior is None:\n            if self.allow_vectorised_prior:", "new": "        if self._vectorised_prior is None:\n            if self.allow_vectorised_prior and self.pool is None:", "expect": "does not depend on the parallelisation setting"},
+    {"id": "extra-draw-with-chunks", "file": _M, "old": "        st = datetime.datetime.now()\n        if unit_hypercube:\n            x = self.from_unit_hypercube(x)\n        log_likelihood = batch_evaluate_function(", "new": "        st = datetime.datetime.now()\n        if unit_hypercube:\n            x = self.from_unit_hypercube(x)\n        if self.likelihood_chunksize:\n            x = x[np.random.permutation(x.size)]\n        log_likelihood = batch_evaluate_function(", "expect": "does not depend on the parallelisation setting"},
 ]
